@@ -554,8 +554,8 @@ impl<E: Effect, R: CommandReceiver<E>, S: EventSender<E>> Worker<E, R, S> {
         // If no actual results were provided, manually wake up the awaiter
         // notify_result handles this when there are results
         if !has_any_result {
-            // Remove from waiting and add to queue
-            self.executor.mark_active(awaiter);
+            // Re-queue it if it is blocked in a select (a stale answer may find it spawning)
+            self.executor.wake_selecting(awaiter);
         }
 
         Ok(())
@@ -575,10 +575,15 @@ impl<E: Effect, R: CommandReceiver<E>, S: EventSender<E>> Worker<E, R, S> {
                     .map_err(|e| EnvironmentError::HeapData(format!("{:?}", e)))?;
             }
             Err(error) => {
-                // Set the process result to the error and clear frames to complete it
-                if let Some(process) = self.executor.get_process_mut(awaiter) {
-                    process.result = Some(Err(error));
-                    process.frames.clear(); // Complete the process
+                // Set the process result to the error and clear frames to complete it - unless
+                // the select that awaited the failed process has completed already: the failure
+                // is stale then, and the awaiter is only woken (as for a stale result).
+                match self.executor.get_process_mut(awaiter) {
+                    Some(process) if process.awaiting.contains_key(&awaited) => {
+                        process.result = Some(Err(error));
+                        process.frames.clear(); // Complete the process
+                    }
+                    _ => self.executor.wake_selecting(awaiter),
                 }
             }
         }
